@@ -810,4 +810,248 @@ theorem qOk_all (o : Opts) (fk : Option (List Keylog.Key)) (xs : List (Item Keyl
   · intro s hs; cases hs
 
 end SessOk
+/-! ### C10: ports -/
+section C10
+variable (mask : Quic.Dissect.MaskFn) (H : Crypto.Prims) (P : Cipher.Prims) (info : Nat → Pipeline.Info)
+
+theorem classify_quic (o : Opts) (it : Item Keylog.Key) (p : Pkt) (b0 : UInt8) (r : Bytes)
+    (h : classify o it = .quic p b0 r) :
+    it = .frame p ∧ p.l4 = .udp ∧ p.payload = b0 :: r ∧ (((b0.toNat &&& 0x40) >>> 6 = 1) ∨ o.greasy = true) := by
+  cases it with
+  | dsb ks => simp [classify] at h
+  | frame q =>
+    cases hl : q.l4 with
+    | tcp =>
+      simp only [classify, hl] at h
+      repeat' split at h
+      all_goals cases h
+    | other => simp only [classify, hl] at h; cases h
+    | udp =>
+      cases hp : q.payload with
+      | nil => simp only [classify, hl, hp] at h; cases h
+      | cons c cs =>
+        simp only [classify, hl, hp] at h
+        split at h
+        · cases h
+        · split at h
+          · rename_i hfix
+            simp only [Class.quic.injEq] at h
+            obtain ⟨rfl, rfl, rfl⟩ := h
+            exact ⟨rfl, hl, hp, by simpa using hfix⟩
+          · cases h
+
+/-- what reaches `handle_quic_packet`: UDP datagrams with a non-empty payload whose first byte has the QUIC fixed bit (or
+    any first byte, with `-g`) — the main loop does NOT look at the ports of a UDP datagram (only `rolesOf` does, afterwards) -/
+theorem mem_quicView (o : Opts) (kl : List Keylog.Key) (xs : List (Item Keylog.Key)) (x : QIn Keylog.Key)
+    (h : x ∈ quicView o kl xs) :
+    Item.frame x.p ∈ xs ∧ x.p.l4 = .udp ∧ ∃ b0 r, x.p.payload = b0 :: r ∧ x.h = parseHeader1 b0 r ∧
+      (((b0.toNat &&& 0x40) >>> 6 = 1) ∨ o.greasy = true) := by
+  induction xs generalizing kl with
+  | nil => cases h
+  | cons it rest ih =>
+    simp only [quicView] at h
+    split at h
+    · obtain ⟨a, b⟩ := ih _ h
+      exact ⟨List.mem_cons_of_mem _ a, b⟩
+    · rename_i p b0 r hc
+      rcases List.mem_cons.mp h with rfl | h'
+      · obtain ⟨c1, c2, c3, c4⟩ := classify_quic o it p b0 r hc
+        exact ⟨by rw [c1]; exact List.mem_cons_self .., c2, b0, r, c3, rfl, c4⟩
+      · obtain ⟨a, b⟩ := ih _ h'
+        exact ⟨List.mem_cons_of_mem _ a, b⟩
+    · obtain ⟨a, b⟩ := ih _ h
+      exact ⟨List.mem_cons_of_mem _ a, b⟩
+
+/-- **C10, whole program, QUIC, items level.** Every frame of every exported QUIC session runs between the client's
+    ORIGINAL endpoint and the server's address with the exported server port: the original port when
+    `keep_original_ports` (no `-m`), else the port the map lists for it, else 8080; MAC addresses and IP version are those
+    of the datagram `x0` that created the session. The roles are decided on `x0` (`rolesOf`): the side whose port is in
+    the server-port list is the server; when NEITHER port is in the list the session still exists — QUIC is recognised by
+    the header bits of the UDP payload (`mem_quicView`), not by the ports — and the DESTINATION of `x0` is taken for the
+    server. -/
+theorem export_ports_quic_items (o : Opts) (fk : Option (List Keylog.Key)) (xs : List (Item Keylog.Key)) :
+    (∀ s ∈ quicSess mask H P info o fk xs, ∀ pkt ∈ qFrames mask H P info o.metadata s,
+      let sp := TcpOut.exportedServerPort o.keep (Pipeline.portmapFn o.portmap) s.server.port
+      ((pkt.src = s.client ∧ pkt.dst = ⟨s.server.ip, sp⟩) ∨ (pkt.src = ⟨s.server.ip, sp⟩ ∧ pkt.dst = s.client)) ∧
+      (o.keep = true → sp = s.server.port) ∧
+      (o.keep = false → sp = ((Pipeline.portmapFn o.portmap) s.server.port).getD 8080)) ∧
+    (∀ s ∈ quicSess mask H P info o fk xs, ∃ x0 ∈ quicView o (fk.getD []) xs, Item.frame x0.p ∈ xs ∧ x0.p.l4 = .udp ∧
+      (s.server, s.client) = rolesOf o.ports x0.p ∧
+      (o.ports.contains (x0.p.src.port : Int) = true → s.server = x0.p.src ∧ s.client = x0.p.dst) ∧
+      (o.ports.contains (x0.p.src.port : Int) = false → s.server = x0.p.dst ∧ s.client = x0.p.src)) := by
+  refine ⟨?_, ?_⟩
+  · intro s hs pkt hpkt sp
+    have hok := qOk_all mask H P info o fk xs s hs
+    refine ⟨?_, by intro hk; simp [sp, TcpOut.exportedServerPort, hk], by intro hk; simp [sp, TcpOut.exportedServerPort, hk]⟩
+    obtain ⟨_, _, _, _, hq, _⟩ := Props.C02Pipeline.quic_out_addressed o.metadata s.st pkt hpkt
+    simp only [hok.opts, hok.server, hok.client] at hq
+    rcases hq with ⟨a, b, _, _⟩ | ⟨a, b, _, _⟩
+    · exact .inr ⟨a, b⟩
+    · exact .inl ⟨a, b⟩
+  · intro s hs
+    obtain ⟨x0, hx0, hr, _⟩ := (qOk_all mask H P info o fk xs s hs).first
+    obtain ⟨hm, hu, _⟩ := mem_quicView o _ xs x0 hx0
+    refine ⟨x0, hx0, hm, hu, hr, ?_, ?_⟩
+    · intro hc; simp only [rolesOf, hc, if_true, Prod.mk.injEq] at hr; exact hr
+    · intro hc; simp only [rolesOf, hc, Bool.false_eq_true, if_false, Prod.mk.injEq] at hr; exact hr
+
+end C10
+
+/-! ### C07: times and ends -/
+section C07
+variable (mask : Quic.Dissect.MaskFn) (H : Crypto.Prims) (P : Cipher.Prims) (info : Nat → Pipeline.Info)
+
+/-- **C07, whole program, QUIC, items level.** For every QUIC session `s` (created by the datagram `x0` of the capture's
+    QUIC view) and every exported frame: no TCP fields, the IP version of `x0`, the two ends as `x0` shows them — frames
+    from the server carry the server's IP and the MAC `x0` has on the server's side, and so on —, and the CAPTURE TIME of a
+    datagram `x` of the capture that the loop gave to this session (`Routed`: its endpoints are the session's, or it names
+    a non-empty connection ID) and in which the session found an exported frame. -/
+theorem export_time_and_ends_quic_items (o : Opts) (fk : Option (List Keylog.Key)) (xs : List (Item Keylog.Key)) :
+    ∀ s ∈ quicSess mask H P info o fk xs, ∃ x0 ∈ quicView o (fk.getD []) xs,
+      (s.server, s.client) = rolesOf o.ports x0.p ∧
+      ∀ pkt ∈ qFrames mask H P info o.metadata s,
+        pkt.flags = 0 ∧ pkt.seq = 0 ∧ pkt.ack = 0 ∧ pkt.udp = true ∧ pkt.ipv6 = (info x0.p.tag).ipv6 ∧
+        (let sMac := if o.ports.contains (x0.p.src.port : Int) then (info x0.p.tag).srcMac else (info x0.p.tag).dstMac
+         let cMac := if o.ports.contains (x0.p.src.port : Int) then (info x0.p.tag).dstMac else (info x0.p.tag).srcMac
+         (pkt.src.ip = s.server.ip ∧ pkt.dst = s.client ∧ pkt.srcMac = sMac ∧ pkt.dstMac = cMac) ∨
+         (pkt.src = s.client ∧ pkt.dst.ip = s.server.ip ∧ pkt.srcMac = cMac ∧ pkt.dstMac = sMac)) ∧
+        ∃ x ∈ quicView o (fk.getD []) xs, pkt.ts = (info x.p.tag).ts ∧ Routed s x := by
+  intro s hs
+  have hok := qOk_all mask H P info o fk xs s hs
+  obtain ⟨x0, hx0, hr, h6, hsm, hcm⟩ := hok.first
+  refine ⟨x0, hx0, hr, ?_⟩
+  intro pkt hpkt
+  obtain ⟨a1, a2, a3, a4, a5, e, he, _, hts⟩ := Props.C02Pipeline.quic_out_addressed o.metadata s.st pkt hpkt
+  have hudp : pkt.udp = true := by
+    have hp : pkt ∈ connOut o.metadata s.st := hpkt
+    rw [connOut_eq] at hp
+    obtain ⟨d, _, rfl⟩ := List.mem_map.mp hp
+    unfold addressed; split <;> rfl
+  refine ⟨a1, a2, a3, hudp, a4.trans h6, ?_, ?_⟩
+  · simp only [hok.server, hok.client, hsm, hcm] at a5
+    rcases a5 with ⟨b1, b2, b3, b4⟩ | ⟨b1, b2, b3, b4⟩
+    · exact .inl ⟨by rw [b1], b2, b3, b4⟩
+    · exact .inr ⟨b1, by rw [b2], b3, b4⟩
+  · obtain ⟨x, hx, h1, h2⟩ := hok.outs e he
+    exact ⟨x, hx, by rw [← hts]; exact h1, h2⟩
+
+end C07
+
+/-! ### C13: `-a` only adds -/
+section C13
+variable (mask : Quic.Dissect.MaskFn) (H : Crypto.Prims) (P : Cipher.Prims) (info : Nat → Pipeline.Info)
+open TLX.Quic.UdpOut
+
+/-- the session object with `metadata` set to `b` in the options it stores -/
+def qsessMeta (b : Bool) (s : QuicSess QConn) : QuicSess QConn :=
+  { s with st := { s.st with opts := optMeta s.st.opts b } }
+
+theorem feed_meta (b : Bool) (c : QConn) (kl : List Keylog.Key) (p : Pkt) (d : Bytes) (v : MainLoop.Version) :
+    (quicMachine mask H P info).feed { c with opts := optMeta c.opts b } kl p d v =
+      { (quicMachine mask H P info).feed c kl p d v with
+        opts := optMeta ((quicMachine mask H P info).feed c kl p d v).opts b } := by
+  obtain ⟨o', sv, cl, sm, cm, v6, st, raised⟩ := c
+  cases raised <;> rfl
+
+theorem quicLoop_meta (o : Opts) (b : Bool) (kl : List Keylog.Key) (h : Hdr) (ss : List (QuicSess QConn)) (p : Pkt) :
+    quicLoop (quicMachine mask H P info) (optMeta o b) kl h (ss.map (qsessMeta b)) p =
+      (quicLoop (quicMachine mask H P info) o kl h ss p).map (qsessMeta b) := by
+  induction ss with
+  | nil =>
+    simp only [quicLoop, List.map_nil]
+    split
+    · rfl
+    · simp only [List.map_cons, List.map_nil, quicNew, qsessMeta]
+      congr 1
+  | cons s rest ih =>
+    simp only [List.map_cons, quicLoop]
+    have ht : quicTake (quicMachine mask H P info) h p (qsessMeta b s) = quicTake (quicMachine mask H P info) h p s := rfl
+    rw [ht]
+    cases quicTake (quicMachine mask H P info) h p s with
+    | some c =>
+      simp only [List.map_cons]
+      congr 1
+      simp only [qsessMeta]
+      rw [feed_meta]
+    | none =>
+      simp only [List.map_cons]
+      rw [ih]
+
+theorem quicView_optMeta (o : Opts) (b : Bool) (kl : List Keylog.Key) (xs : List (Item Keylog.Key)) :
+    quicView (optMeta o b) kl xs = quicView o kl xs := by
+  induction xs generalizing kl with
+  | nil => rfl
+  | cons it rest ih =>
+    simp only [quicView, classify_optMeta]
+    split <;> simp [ih]
+
+theorem quicSess_meta (o : Opts) (b : Bool) (fk : Option (List Keylog.Key)) (xs : List (Item Keylog.Key)) :
+    quicSess mask H P info (optMeta o b) fk xs = (quicSess mask H P info o fk xs).map (qsessMeta b) := by
+  unfold quicSess
+  rw [quicView_optMeta]
+  have : ∀ (l : List (QIn Keylog.Key)) (ss : List (QuicSess QConn)),
+      quicRun (quicMachine mask H P info) (optMeta o b) (ss.map (qsessMeta b)) l =
+        (quicRun (quicMachine mask H P info) o ss l).map (qsessMeta b) := by
+    intro l
+    induction l with
+    | nil => intro ss; rfl
+    | cons x rest ih =>
+      intro ss
+      simp only [quicRun, List.foldl_cons] at ih ⊢
+      have hstep : quicHandleH (quicMachine mask H P info) (optMeta o b) x.kl x.h (ss.map (qsessMeta b)) x.p =
+          (quicHandleH (quicMachine mask H P info) o x.kl x.h ss x.p).map (qsessMeta b) := by
+        unfold quicHandleH
+        split
+        · rfl
+        · exact quicLoop_meta mask H P info o b x.kl x.h ss x.p
+      rw [hstep]
+      exact ih _
+  exact this _ []
+
+/-- **C13, whole program, QUIC, items level.** The same capture, key log and options, once without and once with `-a`:
+    the QUIC sessions correspond one to one in the same order and are the SAME objects up to the stored flag (the
+    demultiplexer, the dissector and the session never read it: same `output_buffer`). For each session, with `F` the frames
+    of its `output_buffer` as the builder reads them: both exports are `build` of `F`, addressed the same way; and the
+    groups of the export without `-a` are the groups of the export with `-a` RESTRICTED to STREAM data, then regrouped
+    (`C02Out.meta_regroup`: groups that become empty vanish, neighbours with equal (time, direction) merge). In particular
+    the exported STREAM bytes are the same, in the same order. -/
+theorem export_meta_only_adds_quic_items (o : Opts) (fk : Option (List Keylog.Key)) (xs : List (Item Keylog.Key)) :
+    quicSess mask H P info (optMeta o true) fk xs = (quicSess mask H P info (optMeta o false) fk xs).map (qsessMeta true) ∧
+    (quicFrames mask H P info (optMeta o false) fk xs).length = (quicFrames mask H P info (optMeta o true) fk xs).length ∧
+    ∀ s ∈ quicSess mask H P info (optMeta o false) fk xs,
+      let F := s.st.st.out.map frameOf
+      qFrames mask H P info false s = (build false F).map (addressed s.st) ∧
+      qFrames mask H P info true (qsessMeta true s) = (build true F).map (addressed s.st) ∧
+      chunks false F = regroup (restrict (·.1) (chunks true F)) ∧
+      ((build false F).map (·.payload)).flatten =
+        ((chunks true F).flatMap fun g => (g.2.filter (·.1)).map (·.2)).flatten := by
+  have hs : quicSess mask H P info (optMeta o true) fk xs =
+      (quicSess mask H P info (optMeta o false) fk xs).map (qsessMeta true) := by
+    have := quicSess_meta mask H P info (optMeta o false) true fk xs
+    exact this
+  refine ⟨hs, by simp only [quicFrames, List.length_map, hs], ?_⟩
+  intro s _ F
+  have hreg := Props.C02Out.meta_regroup F
+  refine ⟨connOut_eq false s.st, ?_, hreg, ?_⟩
+  · show connOut true (qsessMeta true s).st = _
+    rw [connOut_eq]
+    rfl
+  · have hL : ((build false F).map (·.payload)).flatten = ((F.filter (isExp false)).map (·.data)).flatten := by
+      rw [← List.flatMap_def, Props.C02Out.out_bytes_from_frames, filterMap_exported]
+    have hG : ∀ gs : List Group, (gs.map fun g => (g.1, g.2.map chunkOf)).flatMap
+        (fun g => (g.2.filter (·.1)).map (·.2)) = (((gs.flatMap (·.2)).map chunkOf).filter (·.1)).map (·.2) := by
+      intro gs
+      induction gs with
+      | nil => rfl
+      | cons g gs ih => simp [ih, List.filter_append]
+    have hR : (chunks true F).flatMap (fun g => (g.2.filter (·.1)).map (·.2)) = (F.filter (isExp false)).map (·.data) := by
+      unfold chunks
+      rw [hG, (Props.C02Out.runs_spec true F).1]
+      have := Props.C02Out.stream_chunks F
+      show ((List.filter (isExp true) F).map chunkOf |>.filter (·.1)).map (·.2) = _
+      rw [this, List.map_map]
+      rfl
+    rw [hL, hR]
+
+end C13
 end TLX.Props.ExportPropsQuic
